@@ -59,12 +59,13 @@ def with_cluster(hid, beh, **kw):
     return h
 
 
-def tlc_histories(ctx, n, maxops=3, maxbatches=3, tmpls=None, tag="sim", opts=None, secvals=("absent", "v1", "v2", "bad"), faults=()):
+def tlc_histories(ctx, n, maxops=3, maxbatches=3, tmpls=None, tag="sim", opts=None, secvals=("absent", "v1", "v2", "bad"), faults=(),
+                  epsids=("e0", "e1", "e2", "e4")):
     """Histories proposed by TLC (-simulate over Controller!Next)."""
     tmpls = tmpls or U.CORE_NOWILD
     r = core.tlc(ctx, "gen-" + tag, "Controller", None,
                  cfgtext=controller_cfg([1, 2, 3], tmpls, maxops, maxbatches, ["EmitBehaviour"], secvals=secvals,
-                                        epsids=("e0", "e1", "e2", "e4"), faults=faults),
+                                        epsids=epsids, faults=faults),
                  workers=1, timeout=1800, simulate="num=%d" % n, depth=maxbatches * (maxops + 1) + 1,
                  extra=["-seed", str(ctx.seed)])
     if r["rc"] != 0:
